@@ -64,6 +64,8 @@ pub fn init_quiet_panics() {
     shuttle::Runner::new(SimScheduler::new(), cfg).run(|| {});
     let verbose = std::env::var_os("VERIF_VERBOSE").is_some();
     std::panic::set_hook(Box::new(move |info| {
+        // every panic that reaches the hook is a genuine one (injected crashes use resume_unwind)
+        quandary_simrt::note_genuine_panic();
         let msg = if let Some(s) = info.payload().downcast_ref::<&str>() {
             s.to_string()
         } else if let Some(s) = info.payload().downcast_ref::<String>() {
